@@ -72,6 +72,39 @@ def operator_table_oracle():
     return fails
 
 
+def stale_width_check_oracle():
+    """hyper-parameters whose validity depends on the data width (GaussianART.sigma_init, BayesianART.cov_init, ART2-A's
+    alpha <= 1/sqrt(dim)): a value a freshly constructed model rejects for the data is rejected as well when it arrives
+    through set_params after a first fit - the kernels must never run on a misaligned weight layout"""
+    import artlib
+    fails = []
+    X2 = np.array([[0.1, 0.2], [0.8, 0.7], [0.15, 0.25], [0.5, 0.5]])
+    cases = [("GaussianART", lambda: artlib.GaussianART(0.1, np.ones(2) * 0.5), {"sigma_init": np.ones(3) * 0.5}, lambda: artlib.GaussianART(0.1, np.ones(3) * 0.5)),
+             ("BayesianART", lambda: artlib.BayesianART(1.0, np.eye(2) * 0.1), {"cov_init": np.eye(3) * 0.1}, lambda: artlib.BayesianART(1.0, np.eye(3) * 0.1)),
+             ("ART2A", lambda: artlib.ART2A(0.5, 0.1, 1.0), {"alpha": 1.0}, lambda: artlib.ART2A(0.5, 1.0, 1.0))]
+    for name, mk, kw, mk_fresh in cases:
+        try:
+            mk_fresh().fit(X2)
+            continue                   # a fresh model accepts the combination: nothing to compare
+        except Exception:
+            pass
+        for call in ("fit", "partial_fit"):
+            est = mk()
+            est.fit(X2)
+            try:
+                est.set_params(**kw)
+            except Exception:
+                continue               # rejected by set_params already
+            try:
+                with np.errstate(all="ignore"):
+                    getattr(est, call)(X2)
+                fails.append({"signature": f"{name}/stale-width-check", "text": f"{name}: {list(kw)[0]} of a width a fresh model rejects for 2-column data is accepted by {call} after set_params on a fitted model "
+                              f"(weights of lengths {sorted(set(len(w) for w in est.W))})", "replay": {"estimator": name, "set_params": {k_: np.asarray(v_).tolist() for k_, v_ in kw.items()}, "then": call, "X": X2.tolist()}})
+            except Exception:
+                pass
+    return fails
+
+
 def bookkeeping_oracle(k, o):
     """the published rules are functions of the sample, the weight(s) and the hyper-parameters: the same well-formed
     weights in a model whose training book-keeping (counters, labels) was cleared give the same values"""
@@ -132,6 +165,28 @@ def published_form_oracle(k):
                 if r == 0.0 and nrm != 0.0:
                     f("major-axis-rule", f"one-point category {j} has a major axis {axis.tolist()}")
                     break
+            # the drawing accessor agrees with the stored weight: the end points of both half-axes it returns lie at
+            # distance `radius` (the published ellipsoid distance) from the centroid
+            if d == 2:
+                try:
+                    est2 = copy.deepcopy(est)
+                    est2.W = [np.asarray(w_, dtype=float) for w_ in k["Ws"]]
+                    est2.dim_ = 2
+                    for j, (cen, width, height, angle) in enumerate(est2.get_2d_ellipsoids()):
+                        w_ = est2.W[j]
+                        r_ = float(w_[-1])
+                        if r_ <= 1e-9 or not np.any(w_[d:-1] != 0):
+                            continue
+                        a_ = np.deg2rad(angle)
+                        ends = [np.asarray(cen) + (width / 2) * np.array([np.cos(a_), np.sin(a_)]),
+                                np.asarray(cen) + (height / 2) * np.array([-np.sin(a_), np.cos(a_)])]
+                        ds = [float(est2.category_distance(e_, w_[:d], w_[d:-1], est2.params)) for e_ in ends]
+                        if any(abs(dd - r_) > 1e-6 * (1 + r_) for dd in ds):
+                            f("ellipse-accessor", f"get_2d_ellipsoids: the ends of the returned half-axes of category {j} lie at distances {ds} from the centroid, the radius is {r_} "
+                              f"(mu = {est2.params['mu']})")
+                            break
+                except (ZeroDivisionError, FloatingPointError, AttributeError):
+                    pass
             w = k["Ws"][k["c"]]
             if np.any(w[d:-1] != 0):
                 try:
@@ -193,6 +248,7 @@ def main():
     n = 800 if tier == "quick" else 8000
     calls, outs, strs, summ, fails = [], [], [], [], []
     fails.extend(operator_table_oracle())
+    fails.extend(stale_width_check_oracle())
     stats = {"kinds": {}, "undefined_outputs": 0, "impure": 0}
     tries = 0
     while len(calls) < n and tries < 5 * n:
